@@ -19,8 +19,8 @@ Direct oracle (model-independent, on the real outputs): e-mail domain (after the
 example.com/.org/.net; when both names of the row are ASCII with a letter or digit the local part
 starts with the first such character of the first name and contains the cleaned last name;
 usernames are <= 80 characters, contain exactly one `@`, never repeat within a case; every
-spelling (any case, all or none of the underscores — and, per the property text, also some of the
-underscores) resolves to the same provider as the plain name.
+spelling (any case, any subset of the underscores, additional underscores) resolves to the same
+provider as the plain name.
 Exhaustive enumeration (a test, labelled as such): `safe_domain_names` of every Faker locale, the
 first/last-name tables (no `@`, lengths), sampled host names (length bound).
 """
@@ -38,7 +38,7 @@ SPEC = {
     "pins": ["FakeContact"],
     "harness": "harness.c18",
     "technique": "Lean 4 theorems over a model of the e-mail templates (with a str.format interpreter), the sanitiser, the user-name truncation (Python slice semantics) and the four-segment name table + pins regenerated from the AST (constants, arithmetic, wiring, class attributes) + recorded-draw correspondence at function level and through whole recipes, over all Faker locales",
-    "level_text": "Machine-checked proof, for each of the 60 templates and all names / domains / years >= 1000, that a built address is local@domain with the drawn domain and no '@' in the local part; that fake: email is in a reserved domain for every content of the remembered-values dictionary given Faker's contract; sanitiser specification; user name <= 80 (host <= 79), exactly one '@', distinct when the uuid survives truncation (refuted otherwise: D22); every all-or-none-underscore spelling in any case resolves to the same attribute, Snowfakery names win (partial-underscore spellings refuted: D18). Tied to the source by 36 bridging lemmas and by differential runs over all 110 locales.",
+    "level_text": "Machine-checked proof, for each of the 60 templates and all names / domains / years >= 1000, that a built address is local@domain with the drawn domain and no '@' in the local part; that fake: email is in a reserved domain for every content of the remembered-values dictionary given Faker's contract; sanitiser specification; user name <= 80 (host <= 79), exactly one '@', distinct when the uuid survives truncation (refuted otherwise: D22); every spelling in any case with any placement of underscores resolves to the same attribute (full strength since fix 6b5b124), Snowfakery names win. Tied to the source by 36 bridging lemmas and by differential runs over all 110 locales.",
     "level_note": "Trusted: Lean kernel; py2lean; the harness; Faker's data and providers (safe_domain_name, ascii_safe_email, hostname, uuid4, first_name, last_name) are external: their contract (reserved domains, no '@', host length) is an explicit hypothesis, enumerated/sampled over all locales on every run, not proved. str.lower() is modelled for ASCII spellings only.",
     "assumptions": [
         "Faker.safe_domain_name() returns example.org/.com/.net and ascii_safe_email() an address in one of them (enumerated over all locales on every run)",
@@ -350,13 +350,21 @@ def spellings_of(n, rng):
 
 
 def partial_spellings(n, rng):
-    """Spellings that keep some but not all underscores (D18)."""
+    """Spellings that differ in underscores only, other than all-or-none (D18, repaired by
+    6b5b124): some but not all underscores dropped; an underscore doubled; one added."""
+    out = []
     idx = [i for i, c in enumerate(n) if c == "_"]
-    if len(idx) < 2:
-        return []
-    k = rng.randrange(1, len(idx))
-    drop = set(rng.sample(idx, k))
-    return ["".join(c for i, c in enumerate(n) if i not in drop)]
+    if len(idx) >= 2:
+        k = rng.randrange(1, len(idx))
+        drop = set(rng.sample(idx, k))
+        out.append("".join(c for i, c in enumerate(n) if i not in drop))
+    if idx:
+        i = rng.choice(idx)
+        out.append(n[:i] + "_" + n[i:])
+    if len(n) >= 2:
+        i = rng.randrange(1, len(n))
+        out.append(n[:i] + "_" + n[i:])
+    return [s for s in dict.fromkeys(out) if s != n]
 
 
 # ------------------------------------------------------------------ oracles
@@ -512,10 +520,10 @@ def gen_name(rng):
     return "".join(rng.choice("abXY19 .'-_@é李{}") for _ in range(rng.randint(0, 12)))
 
 
-FIRST_SPELLINGS = ["first_name", "FirstName", "firstname", "FIRST_NAME", "First_Name", "FIRSTNAME", "fIrStNaMe"]
-LAST_SPELLINGS = ["last_name", "LastName", "lastname", "LAST_NAME", "Last_Name", "LASTNAME"]
-EMAIL_SPELLINGS = ["email", "Email", "EMAIL", "eMaIl"]
-USER_SPELLINGS = ["username", "UserName", "user_name", "USER_NAME", "Username", "USERNAME"]
+FIRST_SPELLINGS = ["first_name", "FirstName", "firstname", "FIRST_NAME", "First_Name", "FIRSTNAME", "fIrStNaMe", "first__name", "F_irstName"]
+LAST_SPELLINGS = ["last_name", "LastName", "lastname", "LAST_NAME", "Last_Name", "LASTNAME", "La_st_Name"]
+EMAIL_SPELLINGS = ["email", "Email", "EMAIL", "eMaIl", "E_mail"]
+USER_SPELLINGS = ["username", "UserName", "user_name", "USER_NAME", "Username", "USERNAME", "user__name", "U_ser_Name"]
 OTHER_SPELLINGS = ["first_name_female", "LastNameMale", "company", "Alias", "city", "name", "prefix", "ssn"]
 
 
@@ -611,6 +619,10 @@ def run_seq_case(case, rep):
     for rec in s.records:
         key = canon_py(rec["sp"])
         res = rec["result"]
+        if res[0] == "noSuchName" and _names_a_provider(rec):
+            rep.violation("C18:partial-underscore-spelling-rejected",
+                          f"locale {locale}: fake: {rec['sp']} is rejected although it differs from a provider name only in underscores/case",
+                          case, "resolves to the provider", "No fake data type named " + rec["sp"])
         if res[0] != "value":
             continue
         val = rec.get("raw")
@@ -850,7 +862,7 @@ def run_lookup_case(case, rep):
                 spell.append((n, s, got))
                 rep.count("lookup:spellings")
                 if got != ref:
-                    if ref is not None and got is not None and _same_behaviour(real_table, n, s, fd):
+                    if ref is not None and got is not None and _same_behaviour(real_table, ref, got, tags):
                         rep.count("lookup:alias-equivalent")
                         continue
                     rep.violation("C18:spelling-resolves-differently",
@@ -861,8 +873,11 @@ def run_lookup_case(case, rep):
                 spell.append((n, s, got))
                 rep.count("lookup:partial-underscore")
                 if got != ref:
+                    if ref is not None and got is not None and _same_behaviour(real_table, ref, got, tags):
+                        rep.count("lookup:alias-equivalent")
+                        continue
                     rep.violation("C18:partial-underscore-spelling-rejected",
-                                  f"locale {locale}: fake: {s} (some underscores of {n}) gives {got}, fake: {n} gives {ref}",
+                                  f"locale {locale}: fake: {s} (differs from {n} in underscores only) gives {got}, fake: {n} gives {ref}",
                                   dict(case, names=[n]), ref, got)
     finally:
         fd.fake_names = real_table
@@ -879,11 +894,15 @@ def run_lookup_case(case, rep):
     rep.count("lookup:names", len(names))
 
 
-def _same_behaviour(table, n, s, fd):
+def _same_behaviour(table, tag_a, tag_b, tags):
     """Two table entries count as the same provider when, from the same Faker state, they return
     the same values (aliases such as ko_KR `postal_code` -> `postcode`)."""
-    a, b = table.get(n.lower()), table.get(s.lower())
-    if a is None or b is None or a is NotImplemented or b is NotImplemented:
+    by_tag = {}
+    for v in table.values():
+        if v is not NotImplemented:
+            by_tag.setdefault(tags.get(v), v)
+    a, b = by_tag.get(tag_a), by_tag.get(tag_b)
+    if a is None or b is None:
         return False
     try:
         fk = names_instance(table).f
